@@ -106,6 +106,9 @@ def run(ctx, chk):
         vals = [v for _, v in seq]
         magic_ok = magic is not None and 'bytes' in magic and vals[:2] == [int.from_bytes(bytes.fromhex(magic['bytes'])[i:i + 4], 'little') for i in (0, 4)]
         chk.ob('C16.V4', 'repair:wipe-writes-the-validated-magic', magic_ok, info['where'], 'wipe writes magic words %s' % [hex(v) if isinstance(v, int) else v for v in vals[:2]])
+        chk.ob('C16.V4', 'repair:wipe-truncates-the-file', bool(info['truncates']), info['where'],
+               'the re-created file is cut to the documented size via %s' % info['truncates'] if info['truncates'] else
+               'wipe never truncates: a longer unusable file keeps its old length (not the documented 72 bytes)')
         chk.ob('C16.V4', 'repair:declared-size-is-segment-size', len(vals) > 2 and vals[2] == 'segsize' and info['segsize_arg'] == seg_val, info['where'],
                'wipe declares size <- its segsize argument; ShmWriter::new passes %s' % info['segsize_arg'])
     C04.check_new(fb, chk, rule_prefix='C16.V4')
